@@ -1,22 +1,28 @@
-(* C15: with the decision rules and span comparison generated from the current source, whenever the
-   selection returns a lambda c for a function object created by lambda t -- t occurs in a top-level
-   statement that starts at or before the definition line d, its line span contains d, and the argspec
-   handed to the comparison is what getfullargspec reports for t's signature -- then c is t, PROVIDED t
-   has no positional-only parameter or the generated comparison takes positional-only parameters into
-   account (comps_complete; false for the unchanged source, true with fixes/C15-lambda-posonly-argspec.diff;
-   the guard is exactly the known finding c15-lambda-posonly, see lambda_posonly_refuted).  For all lists of statements and
-   lambdas (any number per line, nested, equal or different signatures): the selection returns the unique
-   candidate spanning the line, else the unique one matching the signature, else raises. *)
+(* C15: with the decision rules, span comparison and text normalisation generated from the current source,
+   whenever the selection -- run on a FILE, i.e. on the tree parser.parse builds from the file text, whose line
+   numbers are compared with co_firstlineno = a line number of the file -- returns a lambda c for a function
+   object created by lambda t -- t occurs in a top-level statement that starts at or before the definition
+   line d, its line span (in file lines) contains d, and the argspec handed to the comparison is what
+   getfullargspec reports for t's signature -- then c is t, PROVIDED t has no positional-only parameter or the
+   generated comparison takes positional-only parameters into account (comps_complete; the guard is exactly
+   the known finding c15-lambda-posonly, see lambda_posonly_refuted).  For all files (any number of leading
+   blank / whitespace-only lines `lead`), all lists of statements and lambdas (any number per line, on
+   consecutive lines, nested, equal or different signatures): the selection returns the unique candidate
+   spanning the line, else the unique one matching the signature, else raises.
+   The proof needs norm_ok parse_norm (parse() hands the file text to ast.parse without dropping leading
+   lines); `strip_would_substitute` shows that the statement is false for a parse() that strips its text. *)
 From Coq Require Import List Arith Bool.
 Import ListNotations.
 Require Import MV.Lexer.LambdaSyntax MV.Lexer.LambdaSel MV.Lexer.LambdaSelProofs MV.Generated.C15_gen.
 
-Theorem lambda_never_substituted : forall nodes d ln ls t c,
+Theorem lambda_never_substituted : forall lead nodes d ln ls t c,
   sorted nodes = true -> In (ln, ls) nodes -> In t ls -> ln <= d -> l_min t <= d <= l_max t ->
   comps_complete match_components = true \/ s_posonly (l_sig t) = [] ->
-  select select_rules span_ops match_components nodes d (spec_of (l_sig t)) = Found c -> c = t.
+  select_in_file select_rules span_ops match_components parse_norm lead nodes d (spec_of (l_sig t)) = Found c ->
+  c = t.
 Proof.
-  intros. eapply (never_substituted select_rules span_ops match_components); eauto; vm_compute; reflexivity.
+  intros. eapply (never_substituted_in_file select_rules span_ops match_components parse_norm); eauto;
+    vm_compute; reflexivity.
 Qed.
 
 (* non-vacuity: two lambdas with different signatures on one line, the second one is asked for and found;
@@ -30,4 +36,13 @@ Proof. vm_compute. reflexivity. Qed.
 Example ambiguous_raises :
   select select_rules span_ops match_components [(3, [mklam 0 3 3 sx; mklam 1 3 3 sx])] 3 sx = Raised.
 Proof. vm_compute. reflexivity. Qed.
+(* the hypothesis on the parsed text is needed: a file that starts with one blank line and has two lambdas with
+   the same signature on consecutive lines (2 and 3); were the text stripped before parsing, the object
+   created on line 2 would be given the lambda of line 3 *)
+Example strip_would_substitute :
+  select_in_file select_rules span_ops match_components NormStrip 1
+                 [(2, [mklam 0 2 2 sx]); (3, [mklam 1 3 3 sx])] 2 (spec_of sx) = Found (mklam 1 2 2 sx)
+  /\ select_in_file select_rules span_ops match_components parse_norm 1
+                 [(2, [mklam 0 2 2 sx]); (3, [mklam 1 3 3 sx])] 2 (spec_of sx) = Found (mklam 0 2 2 sx).
+Proof. vm_compute. split; reflexivity. Qed.
 Print Assumptions lambda_never_substituted.
